@@ -78,11 +78,31 @@ func replicatorConfig(strategy int, limit int64) *pb.BlobReplicatorConfiguration
 // for the empty blob itself: workloads over configured composites use
 // non-empty objects only.
 func buildComposite(c *sim.RunCtx, s *rt.Sched, clk *sim.Clock, top *pb.BlobAccessConfiguration, leaves map[string]configuration.BlobAccessInfo) (blobstore.BlobAccess, digest.KeyFormat, func()) {
+	return buildCompositeWith(c, s, clk, configuration.NewCASBlobAccessCreator(nil, 1<<20, nil), top, leaves)
+}
+
+// labelled declares every leaf as a label around inner, so that creators
+// which build their nested backends themselves (the AC creator's
+// completeness checker) can still reach a model leaf: a {label: name}
+// backend is resolved by the generic code.
+func labelled(inner *pb.BlobAccessConfiguration, names ...string) *pb.BlobAccessConfiguration {
+	labels := map[string]*pb.BlobAccessConfiguration{}
+	for _, n := range names {
+		labels[n] = leafConfig(n)
+	}
+	return &pb.BlobAccessConfiguration{Backend: &pb.BlobAccessConfiguration_WithLabels{WithLabels: &pb.WithLabelsBlobAccessConfiguration{Backend: inner, Labels: labels}}}
+}
+
+func labelConfig(name string) *pb.BlobAccessConfiguration {
+	return &pb.BlobAccessConfiguration{Backend: &pb.BlobAccessConfiguration_Label{Label: name}}
+}
+
+func buildCompositeWith(c *sim.RunCtx, s *rt.Sched, clk *sim.Clock, base configuration.BlobAccessCreator, top *pb.BlobAccessConfiguration, leaves map[string]configuration.BlobAccessInfo) (blobstore.BlobAccess, digest.KeyFormat, func()) {
 	oldClock, oldLogger := clock.SystemClock, util.DefaultErrorLogger
 	clock.SystemClock, util.DefaultErrorLogger = clk, &recLogger{}
 	restore := func() { clock.SystemClock, util.DefaultErrorLogger = oldClock, oldLogger }
 	group := newSimGroup(s, 0)
-	lc := &leafCreator{BlobAccessCreator: configuration.NewCASBlobAccessCreator(nil, 1<<20, nil), leaves: leaves}
+	lc := &leafCreator{BlobAccessCreator: base, leaves: leaves}
 	info, err := configuration.NewBlobAccessFromConfiguration(group, top, lc)
 	if err != nil {
 		restore()
